@@ -494,6 +494,8 @@ class Tr(object):
             return "(std_from_utf8 %s)" % self.pure(args[0], env)
         if segs[-1] == "from_str_radix" and len(args) == 2 and args[1] == ("num", 16):
             return "(parse_hex_usize %s)" % self.pure(args[0], env)
+        if segs[-1] == "from_str_radix" and len(args) == 2 and args[1][0] == "num" and 2 <= args[1][1] <= 36:
+            return "(parse_radix_usize %d %s)" % (args[1][1], self.pure(args[0], env))
         c = self.ctor(segs) if len(segs) >= 2 else None
         if c:
             return "(%s %s)" % (c[0], self.pure(args[0], env))
